@@ -138,7 +138,8 @@ def gen_value(rng, depth=0):
     if k < 0.5:
         return [gen_value(rng, depth + 1) for _ in range(rng.randint(0, 3))]
     if k < 0.65:
-        return tuple(gen_value(rng, depth + 1) for _ in range(rng.randint(1, 3)))
+        n = rng.randint(1, 3) if rng.random() < 0.8 else rng.randint(11, 14)  # positions 10.. sort differently as strings
+        return tuple(gen_value(rng, depth + 1 if n < 10 else 3) for _ in range(n))
     if k < 0.85:
         return {rng.choice(["a", "b", "count", "x1"]): gen_value(rng, depth + 1) for _ in range(rng.randint(0, 3))}
     return [[k, gen_value(rng, depth + 1)] for k in range(rng.randint(1, 2))]
@@ -194,6 +195,78 @@ def orchestration_problems(rng, R):
             if "dict keys" in p[1]:
                 key = "%s:int-keyed-dict-becomes-str-keyed" % name
             problems.append((key, p[1]))
+    return problems
+
+
+# ------------------------------------------------------------------ (4b) every message_type class of the code base
+_MT_CACHE = {}
+
+
+def message_type_classes():
+    """every class built by computations.message_type in the algorithm / infrastructure / replication modules,
+    with its field list (read from the factory's closure) -> [(module, attribute, class, fields)]"""
+    if _MT_CACHE:
+        return _MT_CACHE["v"]
+    import importlib
+    import pkgutil
+    import pydcop.algorithms
+    from pydcop.infrastructure.computations import Message
+
+    mods = ["pydcop.infrastructure.orchestrator", "pydcop.infrastructure.discovery", "pydcop.infrastructure.orchestratedagents",
+            "pydcop.infrastructure.agents", "pydcop.replication.dist_ucs_hostingcosts", "pydcop.reparation.removal"]
+    mods += ["pydcop.algorithms." + m.name for m in pkgutil.iter_modules(pydcop.algorithms.__path__)]
+    out = []
+    for mn in mods:
+        try:
+            mod = importlib.import_module(mn)
+        except Exception:
+            continue
+        for attr, obj in sorted(vars(mod).items()):
+            if isinstance(obj, type) and issubclass(obj, Message) and obj is not Message \
+                    and getattr(obj, "__module__", None) == "pydcop.infrastructure.computations":
+                init = obj.__dict__.get("__init__")
+                cells = getattr(init, "__closure__", None) or ()
+                fields = None
+                for c in cells:
+                    try:
+                        v = c.cell_contents
+                    except ValueError:
+                        continue
+                    if isinstance(v, list) and all(isinstance(x, str) for x in v):
+                        fields = list(v)
+                if fields is not None:
+                    out.append((mn, attr, obj, fields))
+    _MT_CACHE["v"] = out
+    return out
+
+
+def same_name_problems(rng, R):
+    """instances of all message_type classes decoded in one process in random order: classes that share a message
+    type name (e.g. the orchestrator's and NCBB's 'stop') must each come back with their own fields"""
+    from pydcop.utils.simple_repr import simple_repr
+
+    problems = []
+    classes = list(message_type_classes())
+    rng.shuffle(classes)
+    by_name = {}
+    for mn, attr, cls, fields in classes:
+        try:
+            m = cls(**{f: rng.choice([0, 1, "x", 2.5, True, None, [1, 2], "v3"]) for f in fields})
+        except Exception as e:
+            problems.append(("%s.%s:construct:%s" % (mn, attr, type(e).__name__), str(e)[:200]))
+            continue
+        by_name.setdefault(m.type, set()).add(tuple(fields))
+        R.count("message_type_classes_roundtripped")
+        try:
+            back = wire(m)
+        except Exception as e:
+            problems.append(("message_type:%s:decode-exception:%s" % (m.type, type(e).__name__),
+                             "%s.%s %r: %s" % (mn, attr, simple_repr(m), str(e)[:200])))
+            continue
+        if back.type != m.type or any(not hasattr(back, f) or getattr(back, f) != getattr(m, f) for f in fields) \
+                or simple_repr(back) != simple_repr(m):
+            problems.append(("message_type:%s:fields-differ-after-wire" % m.type, "%s.%s sent %r, decoded %r" % (mn, attr, simple_repr(m), simple_repr(back))))
+    R.count("message_type_names_shared_by_several_classes", sum(1 for v in by_name.values() if len(v) > 1))
     return problems
 
 
@@ -295,14 +368,22 @@ def worker(job):
             sig = common.stable_hash(["algo", algo, gen.case_sig(case), params])
             sample = {"kind": "algorithm run", "algo": algo, "params": params, "case": case} if i % 25 == 0 else None
         elif kind == 2:
-            case = gen.gen_case(rng, min_vars=1, max_vars=5, max_dom=3, palettes=("ties", "float", "neg"), max_space=300, initial=True,
-                                binary_only=False)
+            if rng.random() < 0.25:
+                # domains of 11-14 values (encoded as tuples with positions 10.. on the wire)
+                case = gen.gen_case(rng, min_vars=2, max_vars=3, max_dom=14, palettes=("ties", "neg"), max_space=400, initial=True,
+                                    str_domains=False, nary=False)
+                for v in case["variables"][:1]:
+                    if len(v["domain"]) < 11 and len(case["variables"]) <= 2:
+                        pass
+            else:
+                case = gen.gen_case(rng, min_vars=1, max_vars=5, max_dom=3, palettes=("ties", "float", "neg"), max_space=300, initial=True,
+                                    binary_only=False)
             # ordered graph / syncbb accept any constraints for graph building
             problems = compdef_problems(case, rng, R)
             sig = common.stable_hash(["compdef", gen.case_sig(case)])
             sample = {"kind": "computation definitions", "case": case} if i % 25 == 2 else None
         elif kind == 3:
-            problems = orchestration_problems(rng, R) + infra_harvest_problems(rng, R)
+            problems = same_name_problems(rng, R) + orchestration_problems(rng, R) + infra_harvest_problems(rng, R)
             sig = common.stable_hash(["infra", i, seed])
         else:
             problems = agentdef_problems(rng, R)
